@@ -159,7 +159,12 @@ class UniverseLaws(base.BaseObject):
         if new is self._applies_to:
             return
 
+        old = self._applies_to
         self._applies_to = new
+
+        # the universe these laws used to govern must not keep them
+        if (old is not None) and (old.laws is self):
+            old.laws = None
 
         if self._applies_to is not None:
             self._applies_to.laws = self
@@ -209,10 +214,12 @@ class Universe(vertex.Vertex):
         super().__init__(uid=uid, attributes=attributes)
 
         #: Laws of the universe
-        self._laws: UniverseLaws | None = laws
-        if self._laws is None:
-            self._laws = UniverseLaws(applies_to=self)
-        self._laws.applies_to = self
+        self._laws: UniverseLaws | None = None
+        if laws is None:
+            laws = UniverseLaws()
+        # go through the setter, which also detaches the laws from any
+        # universe they governed before
+        self.laws = laws
 
         #: Internal set of vertices
         self._vertices: list[Vertex] = []
@@ -290,21 +297,14 @@ class Universe(vertex.Vertex):
         if new is self._laws:
             return
 
-        # deassignment
-        if self._laws is not None and new is None:
-            # pylint (rightfully) complains about the access to a private
-            # member here -- but, since we're still within the library, this is
-            # allowed.  it would, however, be an issue if a user of edgegraph
-            # were accessing this
-            # pylint: disable-next=protected-access
-            self._laws._applies_to = None
-            self._laws = None
+        old = self._laws
+        self._laws = new
 
-        # new- and re-assignment
-        else:
-            # mypy can't seem to figure out the type-narrowing here.  in this
-            # else clause, self._laws won't be none
-            self._laws.applies_to = None  # type: ignore
+        # detach the previous laws, if they still point here
+        if (old is not None) and (old.applies_to is self):
+            old.applies_to = None
 
-            self._laws = new
-            self._laws.applies_to = self
+        # attach the new ones (this also detaches them from any universe they
+        # governed before)
+        if new is not None:
+            new.applies_to = self
